@@ -144,3 +144,113 @@ theorem vertexType_chain {p v n : P2 K} (hpn : p.x ≠ n.x) (hpv : p.x ≠ v.x) 
 
 end VT
 end M3d.Tri
+
+namespace M3d.Tri
+section TriModel
+variable {K : Type} [Field K] [LinearOrder K] [IsStrictOrderedRing K]
+
+theorem removeColinear_subset (l : List (P2 K)) : ∀ p ∈ removeColinear l, p ∈ l := by
+  intro p hp
+  simp only [removeColinear, List.mem_filterMap, List.mem_range] at hp
+  obtain ⟨i, hi, h⟩ := hp
+  split at h
+  · cases h
+  · cases h; exact getD_mem_of_lt l i hi
+
+theorem removeColinear_length_le (l : List (P2 K)) : (removeColinear l).length ≤ l.length := by
+  unfold removeColinear
+  exact (List.length_filterMap_le _ _).trans (by simp)
+
+/-- `Triangulate` only returns input vertices, and at most `n − 2` triangles. -/
+theorem triangulate_mem (sd : Bool) : ∀ (fuel : Nat) (poly : List (P2 K)) (ts : List (PTri K)),
+    triangulate sd fuel poly = some ts →
+    (∀ t ∈ ts, t.1 ∈ poly ∧ t.2.1 ∈ poly ∧ t.2.2 ∈ poly) ∧ ts.length + 2 ≤ poly.length := by
+  intro fuel
+  induction fuel with
+  | zero => intro poly ts h; simp [triangulate] at h
+  | succ fuel ih =>
+    intro poly ts h
+    simp only [triangulate] at h
+    have hsub := removeColinear_subset poly
+    have hlen := removeColinear_length_le poly
+    split at h
+    · rename_i h3
+      cases h
+      have m : ∀ i, i < 3 → curAt (removeColinear poly) i ∈ poly := fun i hi =>
+        hsub _ (getD_mem_of_lt _ i (by omega))
+      refine ⟨?_, by simp; omega⟩
+      intro t ht
+      simp only [List.mem_singleton] at ht; subst ht
+      exact ⟨m 0 (by omega), m 1 (by omega), m 2 (by omega)⟩
+    · split at h
+      · cases h
+      · split at h
+        · cases h
+        · rename_i i hfind
+          have hi : i < (removeColinear poly).length := by
+            have := List.mem_of_find?_eq_some hfind
+            simpa using this
+          cases hrec : triangulate sd fuel ((removeColinear poly).eraseIdx i) with
+          | none => rw [hrec] at h; cases h
+          | some ts' =>
+            rw [hrec] at h
+            simp only [Option.map_some, Option.some.injEq] at h
+            subst h
+            obtain ⟨hm, hl⟩ := ih _ _ hrec
+            have he := earTri_mem (removeColinear poly) i hi
+            constructor
+            · intro t ht
+              rcases List.mem_append.1 ht with ht | ht
+              · have := hm t ht
+                have g : ∀ x, x ∈ (removeColinear poly).eraseIdx i → x ∈ poly :=
+                  fun x hx => hsub x (List.mem_of_mem_eraseIdx hx)
+                exact ⟨g _ this.1, g _ this.2.1, g _ this.2.2⟩
+              · simp only [List.mem_singleton] at ht; subst ht
+                exact ⟨hsub _ he.1, hsub _ he.2.1, hsub _ he.2.2⟩
+            · rw [List.length_eraseIdx_of_lt hi] at hl
+              simp only [List.length_append, List.length_singleton]
+              omega
+
+end TriModel
+end M3d.Tri
+
+namespace M3d.Tri
+open M3d.Surface (Tri Edge swap triEdges dirEdges)
+section Winding
+variable {K : Type} [Field K] [LinearOrder K] [IsStrictOrderedRing K]
+
+/-- Signed crossing of the horizontal ray from `p` towards `+x` with the directed edge `e`
+(half-open rule): `+1` if the edge passes upwards with `p` on its left, `−1` if it passes downwards
+with `p` on its right. -/
+def crossing (c : Nat → P2 K) (p : P2 K) (e : Edge) : K :=
+  if (c e.1).y ≤ p.y ∧ p.y < (c e.2).y ∧ 0 < orient (c e.1) (c e.2) p then 1
+  else if (c e.2).y ≤ p.y ∧ p.y < (c e.1).y ∧ orient (c e.1) (c e.2) p < 0 then -1
+  else 0
+
+/-- Winding number of a list of directed edges around `p`. -/
+def winding (c : Nat → P2 K) (p : P2 K) (es : List Edge) : K := sumF (crossing c p) es
+
+theorem crossing_antisymm (c : Nat → P2 K) (p : P2 K) (e : Edge) :
+    crossing c p (swap e) = -crossing c p e := by
+  obtain ⟨a, b⟩ := e
+  have ho := orient_swap (c a) (c b) p
+  show (if (c b).y ≤ p.y ∧ p.y < (c a).y ∧ 0 < orient (c b) (c a) p then (1 : K)
+      else if (c a).y ≤ p.y ∧ p.y < (c b).y ∧ orient (c b) (c a) p < 0 then -1 else 0)
+    = -(if (c a).y ≤ p.y ∧ p.y < (c b).y ∧ 0 < orient (c a) (c b) p then (1 : K)
+      else if (c b).y ≤ p.y ∧ p.y < (c a).y ∧ orient (c a) (c b) p < 0 then -1 else 0)
+  by_cases h1 : (c a).y ≤ p.y ∧ p.y < (c b).y ∧ 0 < orient (c a) (c b) p
+  · have h2 : ¬ ((c b).y ≤ p.y ∧ p.y < (c a).y ∧ 0 < orient (c b) (c a) p) := by
+      rintro ⟨g1, g2, _⟩; linarith [h1.1, h1.2.1]
+    have h3 : (c a).y ≤ p.y ∧ p.y < (c b).y ∧ orient (c b) (c a) p < 0 := ⟨h1.1, h1.2.1, by linarith [h1.2.2]⟩
+    rw [if_neg h2, if_pos h3, if_pos h1]
+  · by_cases h2 : (c b).y ≤ p.y ∧ p.y < (c a).y ∧ orient (c a) (c b) p < 0
+    · have h3 : (c b).y ≤ p.y ∧ p.y < (c a).y ∧ 0 < orient (c b) (c a) p := ⟨h2.1, h2.2.1, by linarith [h2.2.2]⟩
+      rw [if_pos h3, if_neg h1, if_pos h2]; ring
+    · have h3 : ¬ ((c b).y ≤ p.y ∧ p.y < (c a).y ∧ 0 < orient (c b) (c a) p) := by
+        rintro ⟨g1, g2, g3⟩; exact h2 ⟨g1, g2, by linarith⟩
+      have h4 : ¬ ((c a).y ≤ p.y ∧ p.y < (c b).y ∧ orient (c b) (c a) p < 0) := by
+        rintro ⟨g1, g2, g3⟩; exact h1 ⟨g1, g2, by linarith⟩
+      rw [if_neg h3, if_neg h4, if_neg h1, if_neg h2]; ring
+
+end Winding
+end M3d.Tri
